@@ -164,6 +164,31 @@ Section Machine2.
     eapply run_orelse_hit; [apply run_eat_hit; [reflexivity|exact Ht]|]. exact H.
   Qed.
 
+  Lemma pl_primary_function f stk t (a : expr) t' : t <> [] ->
+    run (_ <- expect_simple SLeftParen true ;;
+         '(params, _) <- parse_params pexpr (S lf) ;;
+         body <- pexpr ;;
+         sp <- mk_span sp0 (expr_span body) ;;
+         PL f (StParsed (EFunc sp params body)) stk) t a t' ->
+    run (PL (S f) StPrimary stk) (sim KFunction :: t) a t'.
+  Proof.
+    intros Ht H. cbn [pe_loop]. do 6 (eapply run_orelse_miss; [run_compute|]).
+    eapply run_orelse_hit; [apply run_eat_hit; [reflexivity|exact Ht]|]. exact H.
+  Qed.
+
+  Lemma pl_primary_local f stk t (a : expr) t' : t <> [] ->
+    run (b0 <- parse_bind pexpr (S lf) ;;
+         binds <- binds_loop pexpr (S lf) (S lf) [b0] ;;
+         _ <- expect_simple SSemicolon true ;;
+         inner <- pexpr ;;
+         sp <- mk_span sp0 (expr_span inner) ;;
+         PL f (StParsed (ELocal sp binds inner)) stk) t a t' ->
+    run (PL (S f) StPrimary stk) (sim KLocal :: t) a t'.
+  Proof.
+    intros Ht H. cbn [pe_loop]. do 4 (eapply run_orelse_miss; [run_compute|]).
+    eapply run_orelse_hit; [apply run_eat_hit; [reflexivity|exact Ht]|]. exact H.
+  Qed.
+
   Lemma pl_primary_assert f stk t A t1 (a : expr) t' : t <> [] ->
     run (cond <- pexpr ;;
          c <- eat_simple SColon true ;;
